@@ -69,6 +69,8 @@ def translate_impl(src, impl_pats, self_ty, fns, getters=(), free_ok=True):
             d, info = R.translate_fn(src, ip, self_ty, name, getter_of=(name if name in getters else None))
         texts[name] = d
         order.append((name, info))
+        if info == ("mut", True) and name not in fns:
+            R.MUTATING.add(name)    # a helper `fn h(&mut self, ..)`: `self.h(..);` is a statement that rebinds `self`
 
     for f in fns:
         visit(f, True)
@@ -127,6 +129,16 @@ def unit_tracker():
     # the flag update of `apply_conditions`: the `match condition.kind()` inside its `for` loop, as a function of
     # (self, state, kind).  The loop itself (every condition evaluated, in order, no early out) is C12's and is
     # tied to the model by the invocation log of the correspondence.
+    def subst_kind(x):
+        """`condition.kind()` -> the parameter `kind`"""
+        if isinstance(x, tuple):
+            if x == ("mcall", ("path", ["condition"]), "kind", []):
+                return ("path", ["kind"])
+            return tuple(subst_kind(y) for y in x)
+        if isinstance(x, list):
+            return [subst_kind(y) for y in x]
+        return x
+
     def note_filter(ast):
         fors = [s for s in ast[1] if s[0] == "for"]
         if len(fors) != 1 or ast[2] is not None or any(s[0] not in ("for",) for s in ast[1]):
@@ -138,16 +150,25 @@ def unit_tracker():
         if not stmts or stmts[0][0] != "let" or stmts[0][1][:2] != ("pbind", "state") or \
                 stmts[0][2][0] != "mcall" or stmts[0][2][2] != "evaluate":
             raise Untranslatable("apply_conditions: loop body does not start with `let state = condition.evaluate(..)`")
-        rest = stmts[1:]
-        if len(rest) != 1 or rest[0][0] != "expr" or rest[0][1][0] != "match":
-            raise Untranslatable("apply_conditions: loop body is not `let state = ..; match condition.kind() {..}`")
-        m = rest[0][1]
-        if m[1] != ("mcall", ("path", ["condition"]), "kind", []):
-            raise Untranslatable("apply_conditions: the match is not on `condition.kind()`")
-        return ("block", [("expr", ("match", ("path", ["kind"]), m[2]))], None)
+        rest = subst_kind(stmts[1:])
+        if not rest:
+            raise Untranslatable("apply_conditions: nothing follows the evaluation")
+        # what follows the evaluation — usually `match condition.kind() {..}`, possibly a call of a helper — is the flag update, a
+        # function of (self, state, kind); it may mention the loop variable only through `condition.kind()`
+        if R.any_node(rest, lambda x: x == ("path", ["condition"])):
+            raise Untranslatable("apply_conditions: the flag update uses the condition beyond `condition.kind()`")
+        return ("block", rest, None)
 
     sig, body = R.find_fn(src, impl, "apply_conditions")
-    ast = note_filter(R.P(R.lex(body)).block())
+    raw_ast = R.P(R.lex(body)).block()
+    helpers = sorted(n for n in R.called_names(raw_ast, "TriggerTracker") if n not in ("new", "state", "value", "events_blocked", "overwrite"))
+    if helpers:
+        dh, hinfo = translate_impl(src, [impl], "TriggerTracker", helpers)
+        out += dh
+        for h in helpers:
+            if hinfo.get(h) == ("mut", True):
+                R.MUTATING.add(h)
+    ast = note_filter(raw_ast)
     ctx = R.Ctx("TriggerTracker", "mut", True, [])
     text = R.seq(ast[1], ast[2], [], ctx, 1)
     out += ("def TriggerTracker.note (self : TriggerTracker) (state : AState) (kind : ConditionKind) : TriggerTracker :=\n  "
@@ -181,7 +202,7 @@ def obj_loop(src, impl, fn, elem, elem_ty, coll):
     if len(stmts) != 1 or stmts[0][0] != "for" or ast[2] is not None:
         raise Untranslatable(f"{fn}: the body is not a single `for` loop")
     _, pat, it, lb = stmts[0]
-    if pat != ("pbind", elem, False) or it != ("path", [coll]):
+    if pat != ("pbind", elem, False) or it not in (("path", [coll]), ("mcall", ("path", [coll]), "iter_mut", [])):
         raise Untranslatable(f"{fn}: the loop is not `for {elem} in {coll}`")
     if R.any_node(lb, lambda x: x[0] in ("return",) or (x[0] == "path" and x[1] in (["continue"], ["break"]))):
         raise Untranslatable(f"{fn}: early exit inside the loop")
